@@ -12,7 +12,9 @@ from mosromgr.mostypes import MosFile, RunningOrder
 # distinct numeric message IDs of mixed digit counts; consecutive entries sort
 # differently as strings and as numbers (9/10, 99/100, ...)
 MID_POOL = [3, 9, 10, 11, 20, 99, 100, 101, 200, 999, 1000, 1001, 2000, 9999, 10000, 10001,
-            54321, 99999, 100000, 1234567]
+            54321, 99999, 100000, 1234567,
+            # zero, and values around and beyond 32-bit boundaries
+            0, 2 ** 30 + 7, 2 ** 31 - 48, 2 ** 31, 2 ** 32 + 5, 10 ** 12]
 
 
 @st.composite
